@@ -56,7 +56,73 @@ func c19Expected(data []byte) (exp mdSummary, consumed []int64) {
 	return mdSummary{}, consumed
 }
 
+// tempErrReader fails once, with an error that says it is temporary, when `at` bytes have been
+// delivered, and carries on with the data afterwards (a transport that says "try again").
+type tempErrReader struct {
+	r     io.Reader
+	at    int64
+	pos   int64
+	fired bool
+}
+
+type errTryAgain struct{}
+
+func (errTryAgain) Error() string   { return "resource temporarily unavailable (try again)" }
+func (errTryAgain) Timeout() bool   { return true }
+func (errTryAgain) Temporary() bool { return true }
+
+func (t *tempErrReader) Read(p []byte) (int, error) {
+	if !t.fired && t.pos >= t.at {
+		t.fired = true
+		return 0, errTryAgain{}
+	}
+	if !t.fired && int64(len(p)) > t.at-t.pos {
+		p = p[:t.at-t.pos]
+	}
+	n, err := t.r.Read(p)
+	t.pos += int64(n)
+	return n, err
+}
+
+// c19Temporary: the source reports one temporary error after `at` bytes. Whatever metadata comes
+// back, the stream must still replay the complete input to a consumer that reads on after the error.
+func c19Temporary(data []byte, at int64) (kind, msg string) {
+	res := loadWith("autometa", &tempErrReader{r: bytes.NewReader(data), at: at})
+	if res.Panic != nil {
+		return "panic", fmt.Sprintf("autometa.Load panicked: %v", res.Panic)
+	}
+	if res.Stream == nil {
+		return "nil-stream", "autometa.Load returned a nil stream"
+	}
+	var out []byte
+	buf := make([]byte, 4096)
+	errs := 0
+	for calls := 0; calls < 4*len(data)/len(buf)+64; calls++ {
+		n, err := res.Stream.Read(buf)
+		out = append(out, buf[:n]...)
+		if err == io.EOF {
+			break
+		}
+		if err != nil {
+			errs++
+			if errs > 8 {
+				break
+			}
+		}
+	}
+	if !bytes.Equal(out, data) {
+		return "stream", fmt.Sprintf("the source reported one temporary error after %d bytes and then carried on; autometa.Load's stream, read on after errors (%d seen), gives %d bytes that %s (input %d bytes)", at, errs, len(out), firstDiff(out, data), len(data))
+	}
+	return "", "ok"
+}
+
 func c19Check(data []byte, schedule string, seed uint64, deferred bool) (kind, msg string, nt bool) {
+	if strings.HasPrefix(schedule, "temporary@") {
+		var at int64
+		fmt.Sscanf(schedule, "temporary@%d", &at)
+		kind, msg = c19Temporary(data, at)
+		return kind, msg, false
+	}
 	exp, consumed := c19Expected(data)
 	if exp.Panic != "" {
 		return "", "a specific loader panicked (C09's business)", false
@@ -416,7 +482,14 @@ func runC19(r *core.Run) {
 	var outcomes [3]int64
 	core.ParallelFor(len(in), 16, func(i int) {
 		x := in[i]
-		for si, sc := range []string{"all", "1", "random17", fmt.Sprintf("seeker@%d", 1+i%23), "data+eof", "4096+data+eof", "pipe", "zero-nil", fmt.Sprintf("kind:%d", 1+i%7)} {
+		tempAt := int64(0)
+		if len(x.bytes) > 0 {
+			tempAt = int64(seeds[i] % uint64(len(x.bytes)))
+			if i%3 == 0 && len(x.bytes) > 4200 {
+				tempAt = 4096 + int64(seeds[i]%100)
+			}
+		}
+		for si, sc := range []string{"all", "1", "random17", fmt.Sprintf("seeker@%d", 1+i%23), "data+eof", "4096+data+eof", "pipe", "zero-nil", fmt.Sprintf("kind:%d", 1+i%7), fmt.Sprintf("temporary@%d", tempAt)} {
 			if sc == "pipe" && i%4 != 0 {
 				continue
 			}
